@@ -134,7 +134,8 @@ fn run_per_process(steps: &[Step], work: &Path, tmp: &Path) -> Result<Vec<String
             exit_code: None,
             line_number: i + 1,
             // as `scrut test` does: TMPDIR of the test cases is the temporary directory that also holds the state directory
-            config: TestCaseConfig { detached: if st.detached { Some(true) } else { None }, environment: [("TMPDIR".to_string(), tmp.to_string_lossy().to_string())].into_iter().collect(), ..TestCaseConfig::default_markdown() },
+            // every other attached step spells `detached: false` out (documents copy the documented defaults): same behaviour as leaving it out
+            config: TestCaseConfig { detached: if st.detached { Some(true) } else if i % 2 == 1 { Some(false) } else { None }, environment: [("TMPDIR".to_string(), tmp.to_string_lossy().to_string())].into_iter().collect(), ..TestCaseConfig::default_markdown() },
         });
     }
     // a final pure probe
